@@ -636,13 +636,13 @@ class C05(Property):
         return findings, {"problem_strings_compared": len(strs), "problem_strings_accepted": nacc}
 
     # ---- `crustabri check`: exit status 0 exactly when the reader (and its Lean model) accepts the file ----
-    def check_command(self, ctx, rng):
+    def check_command(self, ctx, rng, n=None):
         runner, tier = ctx["runner"], ctx["tier"]
         crust = os.path.join(common.REPO_TARGET, "release", "crustabri")
         c13 = props_io.C13()
         cases = c13.cases("quick", random.Random(rng.randrange(1 << 30)))
         rng.shuffle(cases)
-        cases = cases[:120 if tier == "quick" else 1500]
+        cases = cases[:n or (120 if tier == "quick" else 1500)]
         lines, jobs = [], []
         for i, cl in enumerate(cases):
             kv = dict(t.split("=", 1) for t in cl.split(" ")[2:] if "=" in t)
